@@ -36,6 +36,7 @@ extern volatile unsigned long g_sink;
 extern volatile int g_rc;
 extern unsigned char g_heap_snap[SNAPMAX];
 extern volatile size_t g_heap_snap_len;
+extern void *volatile g_heap_ptr;
 
 #define PRE(i) ((unsigned char)(0xB0 ^ ((i) & 15)))
 #define POST(i) ((unsigned char)(0x8F ^ (((i) * 3) & 15)))
@@ -52,20 +53,20 @@ extern volatile size_t g_heap_snap_len;
 
 /*        id            function      T        N   OFF  erase          fill value   string? slot */
 #define VICTIMS(X)                                                                          \
-    X(memset_s_0a,   "memset_s",    uint8_t, 160, 0, E_memset_s_0,  0x00UL,       0, 0)        \
+    X(memset_s_0a,   "memset_s",    uint8_t, 163, 0, E_memset_s_0,  0x00UL,       0, 0)        \
     X(memset_s_0b,   "memset_s",    uint8_t,  67, 3, E_memset_s_0,  0x00UL,       0, 1)        \
     X(memset_s_ff,   "memset_s",    uint8_t, 131, 1, E_memset_s_ff, 0xFFUL,       0, 2)        \
-    X(memzero_s_a,   "memzero_s",   uint8_t, 160, 0, E_memzero_s,   0x00UL,       0, 0)        \
+    X(memzero_s_a,   "memzero_s",   uint8_t, 163, 0, E_memzero_s,   0x00UL,       0, 0)        \
     X(memzero_s_b,   "memzero_s",   uint8_t,  45, 5, E_memzero_s,   0x00UL,       0, 1)        \
-    X(memset16_s_a,  "memset16_s",  uint16_t, 80, 0, E_memset16_s,  0xA55AUL,     0, 0)        \
-    X(memset16_s_b,  "memset16_s",  uint16_t, 35, 1, E_memset16_s,  0xA55AUL,     0, 1)        \
-    X(memset32_s_a,  "memset32_s",  uint32_t, 40, 0, E_memset32_s,  0xA55AC99CUL, 0, 0)        \
-    X(memset32_s_b,  "memset32_s",  uint32_t, 19, 1, E_memset32_s,  0xA55AC99CUL, 0, 1)        \
-    X(memzero16_s_a, "memzero16_s", uint16_t, 80, 0, E_memzero16_s, 0x00UL,       0, 0)        \
-    X(memzero16_s_b, "memzero16_s", uint16_t, 35, 1, E_memzero16_s, 0x00UL,       0, 1)        \
-    X(memzero32_s_a, "memzero32_s", uint32_t, 40, 0, E_memzero32_s, 0x00UL,       0, 0)        \
-    X(memzero32_s_b, "memzero32_s", uint32_t, 19, 1, E_memzero32_s, 0x00UL,       0, 1)        \
-    X(strzero_s_a,   "strzero_s",   uint8_t, 160, 0, E_strzero_s,   0x00UL,       1, 0)        \
+    X(memset16_s_a,  "memset16_s",  uint16_t, 83, 0, E_memset16_s,  0xA55AUL,     0, 0)        \
+    X(memset16_s_b,  "memset16_s",  uint16_t, 35, 1, E_memset16_s,  0xA55AUL,     0, 2)        \
+    X(memset32_s_a,  "memset32_s",  uint32_t, 41, 0, E_memset32_s,  0xA55AC99CUL, 0, 0)        \
+    X(memset32_s_b,  "memset32_s",  uint32_t, 19, 1, E_memset32_s,  0xA55AC99CUL, 0, 2)        \
+    X(memzero16_s_a, "memzero16_s", uint16_t, 83, 0, E_memzero16_s, 0x00UL,       0, 1)        \
+    X(memzero16_s_b, "memzero16_s", uint16_t, 35, 1, E_memzero16_s, 0x00UL,       0, 3)        \
+    X(memzero32_s_a, "memzero32_s", uint32_t, 41, 0, E_memzero32_s, 0x00UL,       0, 1)        \
+    X(memzero32_s_b, "memzero32_s", uint32_t, 19, 1, E_memzero32_s, 0x00UL,       0, 3)        \
+    X(strzero_s_a,   "strzero_s",   uint8_t, 163, 0, E_strzero_s,   0x00UL,       1, 0)        \
     X(strzero_s_b,   "strzero_s",   uint8_t,  41, 2, E_strzero_s,   0x00UL,       1, 1)
 
 static inline __attribute__((always_inline)) void fill(void *obj, size_t total, size_t bufoff, size_t buflen, int isstr) {
@@ -92,9 +93,10 @@ static inline __attribute__((always_inline)) void use(void *obj, size_t total) {
 
 #define NOINL __attribute__((noinline, noclone, unused))
 
-/* -DSEL_STORAGE=1..4 (stack, stack-noescape, heap, static) and -DSEL_SLOT=0..2 compile only that storage kind and only the
- * victims of that slot: within a slot every erase function has exactly ONE call site in the whole program, which is what
- * lets a link-time optimiser inline the library function into the client (the interesting case).  Default: everything. */
+/* -DSEL_STORAGE=1..4 (stack, stack-noescape, heap, static) and -DSEL_SLOT=0..3 compile only that storage kind and only the
+ * victims of that slot: within a slot every erase function AND every set primitive (mem_prim_set16 is shared by memset16_s
+ * and memzero16_s, mem_prim_set32 by the 32-bit pair) has exactly ONE call site in the whole program, which is what lets a
+ * link-time optimiser inline the library code into the client (the interesting case).  Default: everything. */
 #ifndef SEL_STORAGE
 #define SEL_STORAGE 0
 #endif
@@ -150,12 +152,27 @@ static void emit(const char *s) {
 }
 
 static void report(const char *id, const char *fn, const char *storage, unsigned w, unsigned n, unsigned off,
-                   unsigned long fillv, const unsigned char *snap, size_t total, int rc) {
+                   unsigned long fillv, const unsigned char *snap, size_t total, int rc, unsigned long addr) {
     char line[512];
     size_t bufoff = G, buflen = (size_t)n * w;
     const char *res = "erased";
     long bad = -1;
     unsigned got = 0, want = 0;
+    /* how much of the secret is left, and is any of it outside the 8-byte-aligned interior of the erased range
+       (the bytes mem_prim_set writes one at a time) */
+    unsigned leaked = 0, edge = 0;
+    {
+        unsigned long lo = addr + bufoff + (size_t)off * w, hi = addr + bufoff + buflen;
+        unsigned long ilo = (lo + 7) & ~7UL, ihi = hi & ~7UL;
+        for (size_t j = (size_t)off * w; j < buflen; j++) {
+            unsigned long a = addr + bufoff + j;
+            if (snap[bufoff + j] == SECRET(j) && SECRET(j) != (unsigned char)(fillv >> (8 * (j % w)))) {
+                leaked++;
+                if (a < ilo || a >= ihi)
+                    edge++;
+            }
+        }
+    }
     for (size_t i = 0; i < total; i++) {
         unsigned char e;
         int outside = 1;
@@ -180,15 +197,15 @@ static void report(const char *id, const char *fn, const char *storage, unsigned
             break;
         }
     }
-    snprintf(line, sizeof line, "victim=%s fn=%s storage=%s w=%u n=%u off=%u rc=%d result=%s at=%ld got=%02x want=%02x\n", id, fn,
-             storage, w, n, off, rc, rc != 0 ? "call-failed" : res, bad, got, want);
+    snprintf(line, sizeof line, "victim=%s fn=%s storage=%s w=%u n=%u off=%u rc=%d result=%s at=%ld got=%02x want=%02x leaked=%u edge=%u\n",
+             id, fn, storage, w, n, off, rc, rc != 0 ? "call-failed" : res, bad, got, want, leaked, edge);
     emit(line);
 }
 
-static void report_scan(const char *id, const char *fn, unsigned w, unsigned n, unsigned off, long at, int rc) {
+static void report_scan(const char *id, const char *fn, unsigned w, unsigned n, unsigned off, long at, unsigned long cnt, int rc) {
     char line[512];
-    snprintf(line, sizeof line, "victim=%s fn=%s storage=stack-noescape w=%u n=%u off=%u rc=%d result=%s at=%ld got=00 want=00\n", id, fn,
-             w, n, off, rc, rc != 0 ? "call-failed" : at < 0 ? "erased" : "secret-left", at);
+    snprintf(line, sizeof line, "victim=%s fn=%s storage=stack-noescape w=%u n=%u off=%u rc=%d result=%s at=%ld got=00 want=00 leaked=%lu edge=-1\n",
+             id, fn, w, n, off, rc, rc != 0 ? "call-failed" : at < 0 ? "erased" : "secret-left", at, cnt);
     emit(line);
 }
 
@@ -226,12 +243,13 @@ static const char *only;
 static int wanted(const char *id) { return !only || strstr(id, only) != 0; }
 
 /* ascending run of >= 8 secret bytes anywhere in the popped stack area */
-#define SCAN(at)                                                                                             \
+#define SCAN(at, cnt)                                                                                             \
     do {                                                                                                     \
         volatile unsigned char *b_ = (volatile unsigned char *)__builtin_frame_address(0) - SCAN_BYTES;     \
         size_t run_ = 0;                                                                                     \
         unsigned char prev_ = 0;                                                                             \
         (at) = -1;                                                                                           \
+        (cnt) = 0;                                                                                           \
         for (size_t i_ = 0; i_ < SCAN_BYTES; i_++) {                                                         \
             unsigned char c_ = b_[i_];                                                                       \
             int in_ = c_ >= 0x21 && c_ <= 0x45;                                                              \
@@ -242,12 +260,17 @@ static int wanted(const char *id) { return !only || strstr(id, only) != 0; }
             prev_ = c_;                                                                                      \
             if (run_ >= 8 && (at) < 0)                                                                       \
                 (at) = (long)i_;                                                                             \
+            if (run_ == 8)                                                                                   \
+                (cnt) += 8;                                                                                  \
+            else if (run_ > 8)                                                                               \
+                (cnt) += 1;                                                                                  \
         }                                                                                                    \
     } while (0)
 
 #define RUN(ID, FN, T, N, OFF, E, FILLV, ISSTR, SLOT)                                                        \
     if (SLOT_OK(SLOT) && wanted(#ID)) {                                                                      \
         long at_;                                                                                            \
+        unsigned long cnt_;                                                                                  \
         if (ST_OK(1)) {                                                                                      \
             vs_##ID();                                                                                       \
             {                                                                                                \
@@ -255,26 +278,27 @@ static int wanted(const char *id) { return !only || strstr(id, only) != 0; }
                 for (size_t i_ = 0; i_ < sizeof(obj_##ID); i_++)                                             \
                     snapbuf[i_] = q_[i_];                                                                    \
             }                                                                                                \
-            report("vs_" #ID, FN, "stack", sizeof(T), N, OFF, FILLV, snapbuf, sizeof(obj_##ID), g_rc);       \
+            report("vs_" #ID, FN, "stack", sizeof(T), N, OFF, FILLV, snapbuf, sizeof(obj_##ID), g_rc, (unsigned long)g_spy);       \
         }                                                                                                    \
         if (ST_OK(2)) {                                                                                      \
             touch_stack();                                                                                   \
             vn_##ID();                                                                                       \
-            SCAN(at_);                                                                                       \
-            report_scan("vn_" #ID, FN, sizeof(T), N, OFF, at_, g_rc);                                        \
+            SCAN(at_, cnt_);                                                                                       \
+            report_scan("vn_" #ID, FN, sizeof(T), N, OFF, at_, cnt_, g_rc);                                        \
         }                                                                                                    \
         if (ST_OK(3)) {                                                                                      \
             g_heap_snap_len = 0;                                                                             \
             vh_##ID();                                                                                       \
             if (g_heap_snap_len == sizeof(obj_##ID))                                                         \
-                report("vh_" #ID, FN, "heap", sizeof(T), N, OFF, FILLV, g_heap_snap, sizeof(obj_##ID), g_rc); \
+                report("vh_" #ID, FN, "heap", sizeof(T), N, OFF, FILLV, g_heap_snap, sizeof(obj_##ID), g_rc, (unsigned long)g_heap_ptr); \
             else                                                                                             \
                 emit("victim=vh_" #ID " fn=" FN " storage=heap result=no-snapshot\n");                       \
         }                                                                                                    \
         if (ST_OK(4)) {                                                                                      \
             vt_##ID();                                                                                       \
             if (peek(symaddr("vt_" #ID "_obj"), snapbuf, sizeof(obj_##ID)))                                  \
-                report("vt_" #ID, FN, "static", sizeof(T), N, OFF, FILLV, snapbuf, sizeof(obj_##ID), g_rc);  \
+                report("vt_" #ID, FN, "static", sizeof(T), N, OFF, FILLV, snapbuf, sizeof(obj_##ID), g_rc,   \
+                       symaddr("vt_" #ID "_obj"));                                                           \
             else                                                                                             \
                 emit("victim=vt_" #ID " fn=" FN " storage=static result=no-symbol\n");                       \
         }                                                                                                    \
